@@ -161,4 +161,286 @@ theorem C15_clip_agrees_with_recording (file : List Frame) (ch sr : Nat) (s e d 
   · rw [hf, dif_pos hin]
   · rw [ht]; simp only [lattice_getElem]; ring
 
+/-! ### time expansion -/
+
+/-- Time expansion enters only through the recording's own samplerate: loading the clip `[s, e]`
+    of a recording at `fsr·te` Hz (file rate `fsr`, factor `te`) reads exactly the frames of the
+    clip `[s·te, e·te]` of the unexpanded file, with every time stamp and the step divided by
+    `te` (errors coincide too). -/
+theorem C15_time_expansion (file : List Frame) (ch fsr sr : Nat) (te s e : Rat) (hte : 0 < te)
+    (hf : 0 < fsr) (hsr : (fsr : Rat) * te = sr) :
+    loadClip file ch sr s e = (loadClip file ch fsr (s * te) (e * te)).map (scaleTime te) := by
+  have hf' : (0 : Rat) < fsr := by exact_mod_cast hf
+  have hsr' : (0 : Rat) < sr := by rw [← hsr]; positivity
+  have hsr0 : sr ≠ 0 := by intro h; rw [h] at hsr'; simp at hsr'
+  have hoff : clipOffset sr s = clipOffset fsr (s * te) := by
+    unfold clipOffset; rw [← hsr]; congr 1; ring
+  have hcnt : clipCount sr s e = clipCount fsr (s * te) (e * te) := by
+    unfold clipCount; rw [← hsr]; congr 1; ring
+  have hlt : e * te < s * te ↔ e < s := by
+    constructor
+    · intro h; exact lt_of_mul_lt_mul_right h hte.le
+    · intro h; exact mul_lt_mul_of_pos_right h hte
+  rw [loadClip_normal, loadClip_normal]
+  simp only [hlt, ← hoff, ← hcnt]
+  by_cases h1 : e < s
+  · simp [h1, Except.map]
+  by_cases h3 : clipOffset sr s < 0 ∨ (file.length : Int) < clipOffset sr s
+  · simp [h1, hsr0, Nat.ne_of_gt hf, h3, Except.map]
+  simp only [h1, hsr0, Nat.ne_of_gt hf, h3, if_false, Except.map, scaleTime]
+  congr 2
+  · simp only [lattice, List.map_map]
+    apply List.map_congr_left
+    intro i _
+    simp only [Function.comp]
+    rw [← hsr]; field_simp
+  · rw [← hsr]; field_simp
+
+/-! ### resample -/
+
+/-- the resampled axis has `⌊n·target·step⌋` points and advertises `1/target` -/
+theorem C15_resample_length (n : Nat) (t0 t1 step : Rat) (target : Nat) (a : Axis)
+    (h : resampleAxis n t0 t1 step target = .ok a) (hstep : 0 < step) :
+    a.step = 1 / (target : Rat) ∧ 0 < a.coords.length ∧
+    (a.coords.length : Rat) ≤ n * target * step ∧ (n : Rat) * target * step < (a.coords.length : Rat) + 1 := by
+  obtain ⟨_, hnum, rfl⟩ := resampleAxis_ok n t0 t1 step target a h
+  have hq : (0 : Rat) ≤ (n : Rat) * ((target : Rat) * step) := by positivity
+  have hb := truncZ_le_self_of_nonneg _ hq
+  simp only [List.length_map, List.length_range, true_and]
+  rw [toNat_cast_of_nonneg _ hnum.le]
+  refine ⟨by omega, ?_, ?_⟩
+  · rw [mul_assoc]; exact hb.1
+  · rw [mul_assoc]; exact hb.2
+
+/-- every resampled coordinate lies within one advertised step of `first + k/target`
+    (the drift is `k·frac(n·target·step)/(num·target)`, and `k < num`) -/
+theorem C15_resample_within_one_step (n : Nat) (t0 t1 step : Rat) (target : Nat) (a : Axis)
+    (h : resampleAxis n t0 t1 step target = .ok a) (hstep : 0 < step) (hdt : t1 - t0 = step)
+    (k : Nat) (hk : k < a.coords.length) :
+    |a.coords[k] - (t0 + (k : Rat) / (target : Rat))| < 1 / (target : Rat) := by
+  obtain ⟨_, hnum, rfl⟩ := resampleAxis_ok n t0 t1 step target a h
+  simp only [List.length_map, List.length_range] at hk
+  simp only [List.getElem_map, List.getElem_range]
+  set num := truncZ ((n : Rat) * ((target : Rat) * step)) with hnumdef
+  have hq : (0 : Rat) ≤ (n : Rat) * ((target : Rat) * step) := by positivity
+  have hb := truncZ_le_self_of_nonneg _ hq
+  rw [← hnumdef] at hb
+  have hnumQ : (0 : Rat) < (num : Rat) := by exact_mod_cast hnum
+  have hkQ : (k : Rat) < (num : Rat) := by
+    have : (k : Int) < num := by omega
+    exact_mod_cast this
+  have htpos : (0 : Rat) < (target : Rat) := by
+    rcases Nat.eq_zero_or_pos target with h0 | h0
+    · exfalso; rw [h0] at hb; simp at hb; linarith [hb.1]
+    · exact_mod_cast h0
+  have hk0 : (0 : Rat) ≤ (k : Rat) := by positivity
+  -- drift = k·(r − num)/(num·target), 0 ≤ r − num < 1
+  have hd : t0 + (t1 - t0) * ((n : Rat) / (num : Rat)) * (k : Rat) - (t0 + (k : Rat) / (target : Rat))
+      = (k : Rat) * ((n : Rat) * ((target : Rat) * step) - (num : Rat)) / ((num : Rat) * (target : Rat)) := by
+    rw [hdt]; field_simp; ring
+  rw [hd, abs_lt]
+  have hfr0 : 0 ≤ (n : Rat) * ((target : Rat) * step) - (num : Rat) := by linarith [hb.1]
+  have hfr1 : (n : Rat) * ((target : Rat) * step) - (num : Rat) < 1 := by linarith [hb.2]
+  have hden : (0 : Rat) < (num : Rat) * (target : Rat) := by positivity
+  constructor
+  · have : 0 ≤ (k : Rat) * ((n : Rat) * ((target : Rat) * step) - (num : Rat)) / ((num : Rat) * (target : Rat)) :=
+      div_nonneg (mul_nonneg hk0 hfr0) hden.le
+    have : -(1 / (target : Rat)) < 0 := by simp [htpos]
+    linarith
+  · rw [div_lt_div_iff₀ hden htpos]
+    have : (k : Rat) * ((n : Rat) * ((target : Rat) * step) - (num : Rat)) < (num : Rat) := by
+      calc (k : Rat) * ((n : Rat) * ((target : Rat) * step) - (num : Rat)) ≤ (k : Rat) * 1 :=
+            mul_le_mul_of_nonneg_left hfr1.le hk0
+        _ < num := by simpa using hkQ
+    nlinarith
+
+/-! ### compute_spectrogram -/
+
+/-- (repaired code, fix C15-1) the spectrogram's time coordinates are exactly
+    `first + k·step` for the advertised step, whenever the window is no longer than the audio -/
+theorem C15_stft_step_truthful (len : Nat) (t0 step w h : Rat) (a : SpecAxes)
+    (hok : stftAxes len t0 step w h = .ok a) (hfit : a.nperseg ≤ (len : Int))
+    (k : Nat) (hk : k < a.time.coords.length) :
+    a.time.coords[k] = t0 + (k : Rat) * a.time.step := by
+  obtain ⟨_, _, _, rfl⟩ := stftAxesGen_ok false len t0 step w h a hok
+  simp only at hfit
+  simp only [stftTimes_getElem, min_eq_left hfit, Bool.false_eq_true, if_false]
+  push_cast; field_simp
+
+/-- the frequency coordinates are exactly `k·step` for the advertised step `samplerate/nperseg` -/
+theorem C15_stft_freq_truthful (len : Nat) (t0 step w h : Rat) (a : SpecAxes)
+    (hok : stftAxes len t0 step w h = .ok a) (hfit : a.nperseg ≤ (len : Int))
+    (k : Nat) (hk : k < a.freq.coords.length) :
+    a.freq.coords[k] = (k : Rat) * a.freq.step ∧ a.freq.coords.length = (a.nperseg / 2 + 1).toNat := by
+  obtain ⟨_, _, _, rfl⟩ := stftAxesGen_ok false len t0 step w h a hok
+  simp only at hfit
+  simp only [stftFreqs_getElem, min_eq_left hfit, true_and]
+  simp [stftFreqs]
+
+/-- the advertised (realised) hop differs from the requested hop by less than one sample period,
+    and `nperseg`, `noverlap` are the truncations the code computes -/
+theorem C15_stft_hop_within_one_sample (len : Nat) (t0 step w h : Rat) (a : SpecAxes)
+    (hok : stftAxes len t0 step w h = .ok a) (hstep : 0 < step) (hh : h ≤ w) :
+    |a.time.step - h| < step ∧
+    (a.nperseg : Rat) ≤ w / step ∧ w / step < (a.nperseg : Rat) + 1 ∧
+    (a.noverlap : Rat) ≤ (w - h) / step ∧ (w - h) / step < (a.noverlap : Rat) + 1 := by
+  obtain ⟨_, hn1, _, rfl⟩ := stftAxesGen_ok false len t0 step w h a hok
+  simp only [Bool.false_eq_true, if_false]
+  have hw0 : 0 ≤ w * (1 / step) := by
+    by_contra hneg
+    have hlt : w * (1 / step) < 0 := lt_of_not_ge hneg
+    have := (truncZ_near (w * (1 / step))).2
+    have h1 : ((stftNperseg step w : Int) : Rat) < 1 := by unfold stftNperseg; linarith
+    have : (1 : Rat) ≤ (stftNperseg step w : Rat) := by exact_mod_cast hn1
+    linarith
+  have hwh0 : 0 ≤ (w - h) * (1 / step) := mul_nonneg (by linarith) (one_div_pos.mpr hstep).le
+  have b1 := truncZ_le_self_of_nonneg _ hw0
+  have b2 := truncZ_le_self_of_nonneg _ hwh0
+  have e1 : w * (1 / step) = w / step := by ring
+  have e2 : (w - h) * (1 / step) = (w - h) / step := by ring
+  unfold stftNperseg stftNoverlap
+  rw [e1] at b1 ⊢; rw [e2] at b2 ⊢
+  refine ⟨?_, b1.1, b1.2, b2.1, b2.2⟩
+  have hd : (((truncZ (w / step) - truncZ ((w - h) / step) : Int) : Rat)) / (1 / step) - h
+      = (((truncZ (w / step) : Rat) - w / step) - ((truncZ ((w - h) / step) : Rat) - (w - h) / step)) * step := by
+    push_cast; field_simp; ring
+  rw [hd, abs_lt]
+  constructor <;> nlinarith [b1.1, b1.2, b2.1, b2.2]
+
+/-- (pinned code) `compute_spectrogram(window 0.01, hop 0.0033)` of one second at 8 kHz: the
+    advertised step is the requested 0.0033 s while the realised hop is 27 samples = 0.003375 s;
+    coordinate 44 is already a whole advertised step away from `first + 44·step` (the last one,
+    index 297, 6.75 steps): the monitored statement `axisOk` is false, the axis does not tell the
+    truth. -/
+theorem C15_stft_step_pinned_untruthful :
+    (stftAxesPinned 8000 0 (1 / 8000) (1 / 100) (33 / 10000)).toOption.map
+        (fun a => (a.time.step, a.time.coords[1]?, a.time.coords[44]?, a.time.coords.length, axisOk 0 a.time))
+      = some (33 / 10000, some (27 / 8000), some (44 * (33 / 10000) + 33 / 10000), 298, false) := by
+  decide +kernel
+
+/-- the same request on the repaired code: advertised step = realised hop, truthful axes -/
+example :
+    (stftAxes 8000 0 (1 / 8000) (1 / 100) (33 / 10000)).toOption.map
+        (fun a => (a.nperseg, a.noverlap, a.time.step, a.time.coords.length, axisOk 0 a.time, axisOk 0 a.freq))
+      = some (80, 53, 27 / 8000, 298, true, true) := by
+  decide +kernel
+
+/-! ### the monitor -/
+
+/-- meaning of the executable statement the harness evaluates on the implementation's axes:
+    strictly increasing, starts at `first`, every coordinate within one advertised step of
+    `first + i·step` -/
+theorem C15_monitor_meaning (first : Rat) (a : Axis) :
+    axisOk first a = true ↔
+      (∀ i (h : i + 1 < a.coords.length), a.coords[i] < a.coords[i + 1]) ∧
+      (∀ h : 0 < a.coords.length, a.coords[0] = first) ∧
+      (∀ i (h : i < a.coords.length), |a.coords[i] - (first + (i : Rat) * a.step)| < a.step) := by
+  rw [axisOk_iff]
+  simp only [abs_lt]
+
+/-- the monitor holds on the time axis of every loaded clip (source start = the snapped start) -/
+theorem C15_axis_ok_clip (file : List Frame) (ch sr : Nat) (s e : Rat) (a : TimeArray)
+    (h : loadClip file ch sr s e = .ok a) :
+    axisOk ((clipOffset sr s : Rat) / sr) ⟨a.times, a.step⟩ = true := by
+  obtain ⟨_, hsr, _, _, rfl⟩ := loadClip_ok file ch sr s e a h
+  have hsr' : (0 : Rat) < sr := by exact_mod_cast hsr
+  exact axisOk_lattice _ _ _ (one_div_pos.mpr hsr')
+
+/-- … of every loaded recording (source start = 0) -/
+theorem C15_axis_ok_recording (file : List Frame) (sr : Nat) (d : Rat) (a : TimeArray)
+    (h : loadRecording file sr d = .ok a) : axisOk 0 ⟨a.times, a.step⟩ = true := by
+  obtain ⟨hsr, rfl⟩ := loadRecording_ok file sr d a h
+  have hsr' : (0 : Rat) < sr := by exact_mod_cast hsr
+  exact axisOk_lattice _ _ _ (one_div_pos.mpr hsr')
+
+/-- … of every resampled array whose input axis was truthful (source start = the input's first
+    coordinate) -/
+theorem C15_axis_ok_resample (n : Nat) (t0 t1 step : Rat) (target : Nat) (a : Axis)
+    (h : resampleAxis n t0 t1 step target = .ok a) (hstep : 0 < step) (hdt : t1 - t0 = step) :
+    axisOk t0 a = true := by
+  rw [C15_monitor_meaning]
+  have hw := C15_resample_within_one_step n t0 t1 step target a h hstep hdt
+  obtain ⟨_, hnum, ha⟩ := resampleAxis_ok n t0 t1 step target a h
+  have hnumQ : (0 : Rat) < (truncZ ((n : Rat) * ((target : Rat) * step)) : Rat) := by exact_mod_cast hnum
+  refine ⟨?_, ?_, ?_⟩
+  · intro i hi
+    subst ha
+    simp only [List.getElem_map, List.getElem_range]
+    have hd : 0 < (t1 - t0) * ((n : Rat) / (truncZ ((n : Rat) * ((target : Rat) * step)) : Rat)) := by
+      rw [hdt]; apply mul_pos hstep; apply div_pos _ hnumQ
+      have : 2 ≤ n := (resampleAxis_ok n t0 t1 step target _ h).1
+      exact_mod_cast (by omega : 0 < n)
+    push_cast; nlinarith
+  · intro h0; subst ha; simp
+  · intro i hi
+    have := hw i hi
+    have hs : a.step = 1 / (target : Rat) := by subst ha; rfl
+    rw [hs]
+    have e : (i : Rat) * (1 / (target : Rat)) = (i : Rat) / (target : Rat) := by ring
+    rw [e]; exact this
+
+/-- … and (repaired code) of both axes of every spectrogram whose window fits the audio -/
+theorem C15_axis_ok_stft (len : Nat) (t0 step w h : Rat) (a : SpecAxes)
+    (hok : stftAxes len t0 step w h = .ok a) (hstep : 0 < step) (hfit : a.nperseg ≤ (len : Int)) :
+    axisOk t0 a.time = true ∧ axisOk 0 a.freq = true := by
+  have ht := C15_stft_step_truthful len t0 step w h a hok hfit
+  have hf := C15_stft_freq_truthful len t0 step w h a hok hfit
+  obtain ⟨_, hn1, hov, ha⟩ := stftAxesGen_ok false len t0 step w h a hok
+  have hnp : a.nperseg = stftNperseg step w := by rw [ha]
+  rw [hnp] at hfit
+  rw [min_eq_left hfit] at hov
+  have hts : 0 < a.time.step := by
+    rw [ha]; simp only [Bool.false_eq_true, if_false]
+    apply div_pos _ (one_div_pos.mpr hstep)
+    exact_mod_cast (by omega : (0 : Int) < stftNperseg step w - stftNoverlap step w h)
+  have hfs : 0 < a.freq.step := by
+    rw [ha]; simp only
+    apply div_pos (one_div_pos.mpr hstep)
+    exact_mod_cast (by omega : (0 : Int) < stftNperseg step w)
+  constructor
+  · rw [C15_monitor_meaning]
+    refine ⟨fun i hi => ?_, fun h0 => ?_, fun i hi => ?_⟩
+    · rw [ht i (by omega), ht (i + 1) hi]; push_cast; nlinarith
+    · rw [ht 0 h0]; simp
+    · rw [ht i hi]; simpa using hts
+  · rw [C15_monitor_meaning]
+    refine ⟨fun i hi => ?_, fun h0 => ?_, fun i hi => ?_⟩
+    · rw [(hf i (by omega)).1, (hf (i + 1) hi).1]; push_cast; nlinarith
+    · rw [(hf 0 h0).1]; simp
+    · rw [(hf i hi).1]; simpa using hfs
+
+/-- Every axis is strictly increasing and starts at its source's start: the snapped clip start,
+    0 for a recording, the input's first coordinate for `resample` and `compute_spectrogram`,
+    0 Hz for the frequency axis. -/
+theorem C15_axes_increasing :
+    (∀ (file : List Frame) (ch sr : Nat) (s e : Rat) (a : TimeArray), loadClip file ch sr s e = .ok a →
+      (∀ i (h : i + 1 < a.times.length), a.times[i] < a.times[i + 1]) ∧
+      (∀ h : 0 < a.times.length, a.times[0] = (clipOffset sr s : Rat) / sr)) ∧
+    (∀ (file : List Frame) (sr : Nat) (d : Rat) (a : TimeArray), loadRecording file sr d = .ok a →
+      (∀ i (h : i + 1 < a.times.length), a.times[i] < a.times[i + 1]) ∧
+      (∀ h : 0 < a.times.length, a.times[0] = 0)) ∧
+    (∀ (n : Nat) (t0 t1 step : Rat) (target : Nat) (a : Axis), resampleAxis n t0 t1 step target = .ok a →
+      0 < step → t1 - t0 = step →
+      (∀ i (h : i + 1 < a.coords.length), a.coords[i] < a.coords[i + 1]) ∧
+      (∀ h : 0 < a.coords.length, a.coords[0] = t0)) ∧
+    (∀ (len : Nat) (t0 step w h : Rat) (a : SpecAxes), stftAxes len t0 step w h = .ok a →
+      0 < step → a.nperseg ≤ (len : Int) →
+      (∀ i (h : i + 1 < a.time.coords.length), a.time.coords[i] < a.time.coords[i + 1]) ∧
+      (∀ h : 0 < a.time.coords.length, a.time.coords[0] = t0) ∧
+      (∀ i (h : i + 1 < a.freq.coords.length), a.freq.coords[i] < a.freq.coords[i + 1]) ∧
+      (∀ h : 0 < a.freq.coords.length, a.freq.coords[0] = 0)) := by
+  refine ⟨fun file ch sr s e a h => ?_, fun file sr d a h => ?_, fun n t0 t1 step target a h hs hd => ?_,
+    fun len t0 step w h a hok hs hfit => ?_⟩
+  · have := (C15_monitor_meaning _ _).mp (C15_axis_ok_clip file ch sr s e a h)
+    exact ⟨this.1, this.2.1⟩
+  · have := (C15_monitor_meaning _ _).mp (C15_axis_ok_recording file sr d a h)
+    exact ⟨this.1, this.2.1⟩
+  · have := (C15_monitor_meaning _ _).mp (C15_axis_ok_resample n t0 t1 step target a h hs hd)
+    exact ⟨this.1, this.2.1⟩
+  · have := C15_axis_ok_stft len t0 step w h a hok hs hfit
+    have h1 := (C15_monitor_meaning _ _).mp this.1
+    have h2 := (C15_monitor_meaning _ _).mp this.2
+    exact ⟨h1.1, h1.2.1, h2.1, h2.2.1⟩
+
+
 end SE.Proofs.C15
